@@ -47,6 +47,12 @@ prop("C07", True,
      note="Trusted: go/ssa, VTA call graph, cornelk/hashmap is concurrency-safe, sync.Once, antlr constructors return fresh objects. Not decided: data-race freedom inside the ANTLR runtime or dependencies (no happens-before model), byte-identity of two runs; 18 baseline loops shared with C19 are reported as unconfirmed.",
      design="DESIGN.md §3 C07")
 
+prop("C08", True,
+     technique="who-may-write rule on SourceContext.Start, SSA shape of the location constructor, provenance dataflow from each listener callback's own rule context, path rule for one location per (re)declaration, dominance of the per-file stamp",
+     text="Thin claim — decides only structural necessary conditions of correct source locations: Start (and Line/Col reached through Start) is stored only inside the location constructor (found by role), where Start.Line = start token line − 1 and Start.Col = start token column; each of the 97 location sites in listener callbacks builds its location from the callback's own rule context or tokens of it (a location taken from a parent or child context is reported); every look-up-or-create callback whose creation is control-dependent on the look-up appends a location on every found path; both tree walks are dominated by an assignment of the listener's file stamp derived from the current file name. Catches a local 'correction' of a start column after construction (the plausible form of the validated PATCH mutation), wrong-context locations, a dropped re-declaration location, a stale file stamp.",
+     note="Trusted: go/ssa; ANTLR tokens report 1-based lines / 0-based columns. NOT decided: that a position is the first character of the element or lies inside the file (numbers), end positions, arithmetic changes inside a getSrcCtxFor argument that still use the callback's own tokens. One known finding (re-declared event records one location; the repair changes three pinned goldens).",
+     design="DESIGN.md §3 C08")
+
 for i in range(1, 21):
     pid = "C%02d" % i
     if pid not in P:
